@@ -4,6 +4,7 @@ import (
 	"fmt"
 	"go/token"
 	"go/types"
+	"strings"
 
 	"golang.org/x/tools/go/ssa"
 )
@@ -279,6 +280,16 @@ func ruleWriter2Split(c *Ctx, r *Report, prefix string) {
 			}
 		}
 	}
+	if !(okSlice && nSlice >= 1) || kVal == nil {
+		// the flag form: a helper cuts the segment and says whether the chunk is full; decided per path
+		if ok, why, n := writer2SplitByPaths(c, fn, encWrite, flush, isBudget); ok {
+			r.Pass(rule, FnName(fn)+":slice", c.Pos(fn.Pos()), "on every path the segment handed to the encoder is p[..:budget] or shorter than the budget", n)
+			r.Pass(rule, FnName(fn)+":flush", c.Pos(fn.Pos()), "on every path a segment that fills the budget is followed by flushChunk", n)
+			return
+		} else if why != "" {
+			badSlice = why
+		}
+	}
 	r.Check(okSlice && nSlice >= 1, rule, FnName(fn)+":slice", c.Pos(fn.Pos()), "p is cut as p[n : n+m], m the remaining chunk budget", badSlice)
 	// the flush condition
 	okFlush, why := false, "no comparison k == m (budget used up) guards flushChunk"
@@ -345,3 +356,111 @@ func rulePropsWriters(c *Ctx, r *Report, prefix string) {
 	}
 	r.Check(bad == "", rule, "lzma.Properties", c.Pos(pt.(*types.Named).Obj().Pos()), fmt.Sprintf("fields of Properties are stored only into freshly allocated values (%d stores)", n), bad)
 }
+
+// writer2SplitByPaths decides SEQ-W2-SPLIT when the segment and the "chunk is full" decision are made
+// in another shape than `q = p[n:n+m] ... k == m`. Along every path of Writer2.Write (new helpers
+// inlined) each call of encoder.Write gets a segment q that is
+//
+//	exact:  a slice whose upper bound is (low +) budget, budget = maxUncompressed - written(): it
+//	        fills the chunk, so flushChunk must follow before the next encoder.Write or a return
+//	        without error;
+//	short:  a value whose length the path has compared strictly below the budget: no flush needed.
+//
+// Any other segment (length only known to be <= budget, or unrelated to it) is not accepted here.
+func writer2SplitByPaths(c *Ctx, fn, encWrite, flush *ssa.Function, isBudget func(ssa.Value) bool) (ok bool, why string, n int) {
+	type ev struct {
+		kind string // "exact", "short", "flush"
+		pos  string
+	}
+	ok = true
+	w := &Walker{C: c, Fn: fn, MaxSteps: 400000}
+	w.Instr = func(p *PState, ins ssa.Instruction) bool {
+		st := p.U.(*w2State)
+		if _, isF := callTo(ins, flush); isF {
+			st.evs = append(st.evs, "flush")
+			return true
+		}
+		call, isW := callTo(ins, encWrite)
+		if !isW || len(call.Call.Args) < 2 {
+			return true
+		}
+		q := p.Resolve(call.Call.Args[1])
+		kind := ""
+		if sl, isSl := q.(*ssa.Slice); isSl && sl.High != nil {
+			h := p.Resolve(sl.High)
+			switch {
+			case sl.Low == nil && isBudget(h):
+				kind = "exact"
+			default:
+				if bo, isB := h.(*ssa.BinOp); isB && bo.Op == token.ADD && sl.Low != nil {
+					lo := p.Resolve(sl.Low)
+					if (p.Resolve(bo.X) == lo && isBudget(p.Resolve(bo.Y))) || (p.Resolve(bo.Y) == lo && isBudget(p.Resolve(bo.X))) {
+						kind = "exact"
+					}
+				}
+			}
+		}
+		if kind == "" {
+			for _, rl := range p.rels {
+				x, y, op := rl.X, rl.Y, rl.Op
+				if op == token.GTR {
+					x, y, op = y, x, token.LSS
+				}
+				if op != token.LSS || !isBudget(p.Resolve(y)) {
+					continue
+				}
+				if lc, isC := x.(*ssa.Call); isC {
+					if bi, isB := lc.Call.Value.(*ssa.Builtin); isB && bi.Name() == "len" && p.Resolve(lc.Call.Args[0]) == q {
+						kind = "short"
+					}
+				}
+			}
+		}
+		if kind == "" {
+			kind = "other@" + c.InstrPos(ins)
+		}
+		st.evs = append(st.evs, kind)
+		return true
+	}
+	w.Exit = func(p *PState, ins ssa.Instruction) {
+		n++
+		st := p.U.(*w2State)
+		retOK := false
+		if ret, isRet := ins.(*ssa.Return); isRet {
+			for _, rv := range ret.Results {
+				if isErrType(rv.Type()) && !p.NonNil(rv) {
+					retOK = true
+				}
+			}
+		}
+		for i, e := range st.evs {
+			switch {
+			case strings.HasPrefix(e, "other@"):
+				ok = false
+				why = "the segment handed to the encoder at " + strings.TrimPrefix(e, "other@") + " is neither p[..:budget] nor compared strictly below the chunk budget maxUncompressed - written() on the path: a chunk can exceed its budget, or be filled exactly without being terminated"
+			case e == "exact":
+				next := ""
+				if i+1 < len(st.evs) {
+					next = st.evs[i+1]
+				}
+				if next != "flush" && (next != "" || retOK) {
+					ok = false
+					why = "a segment that fills the chunk budget exactly is not followed by flushChunk: the next Write finds no room left in the chunk"
+				}
+			}
+		}
+	}
+	w.Revisit = func(p *PState, b *ssa.BasicBlock) {}
+	w.Run(&w2State{})
+	if w.Overflow {
+		return false, "path budget exceeded", n
+	}
+	if n == 0 {
+		return false, "", 0
+	}
+	return ok, why, n
+}
+
+type w2State struct{ evs []string }
+
+func (s *w2State) Clone() UserState { return &w2State{evs: append([]string(nil), s.evs...)} }
